@@ -368,6 +368,52 @@ def is_fold_error(e):
     return False
 
 
+_CLASS_INDEX = {}
+
+
+def class_index(cls):
+    if not _CLASS_INDEX:
+        for reg in (query_compile.FUNCTIONS, query_compile.OPERATORS):
+            for lst in reg.values():
+                for i, c in enumerate(lst):
+                    _CLASS_INDEX[id(c)] = i
+    return _CLASS_INDEX.get(id(cls), -1)
+
+
+def fingerprint(n):
+    """Pre-order walk of a compiled tree: node class and, for functions and operators, the position of the chosen
+    overload in its registry list (what the lookup order decides)."""
+    qc = query_compile
+    kids = list(n.childnodes())
+    if isinstance(n, qc.EvalConstant):
+        return [0]
+    if isinstance(n, qc.EvalColumn):
+        return [1]
+    if isinstance(n, qc.EvalAnd):
+        head = [3]
+    elif isinstance(n, qc.EvalOr):
+        head = [4]
+    elif isinstance(n, qc.EvalCoalesce):
+        head = [5]
+    elif isinstance(n, qc.EvalFunction):
+        head = [6, class_index(type(n))]
+    elif isinstance(n, qc.EvalGetItem):
+        head = [7]
+    elif isinstance(n, qc.EvalGetter):
+        head = [8]
+        kids = [n.operand]
+    elif isinstance(n, qc.EvalConstantSubquery1D):
+        return [9]
+    elif isinstance(n, (qc.EvalUnaryOp, qc.EvalBinaryOp, qc.EvalBetween)):
+        head = [2, class_index(type(n))]
+    else:
+        return [-1]
+    out = list(head)
+    for k in kids:
+        out.extend(fingerprint(k))
+    return out
+
+
 def summarize(cq):
     pivots = None
     kind = 0
@@ -378,7 +424,8 @@ def summarize(cq):
     if isinstance(cq, query_compile.EvalPrint):
         return [2, [], [], [], [], [], [], 0]
     targets = [[([[ord(c) for c in q_enc(t.name)]] if t.name is not None else []),
-                [ord(c) for c in tname(t.c_expr.dtype)], int(bool(t.is_aggregate))] for t in cq.c_targets]
+                [ord(c) for c in tname(t.c_expr.dtype)], int(bool(t.is_aggregate)), fingerprint(t.c_expr)]
+               for t in cq.c_targets]
     return [kind, targets,
             [] if cq.group_indexes is None else [list(cq.group_indexes)],
             [] if cq.having_index is None else [cq.having_index],
@@ -656,7 +703,7 @@ def overload_sweep(reg, rng, tier):
             continue
         combos = list(itertools.product(PROBES, repeat=ar))
         if ar == 3:
-            combos = rng.sample(combos, 100 if tier == 'quick' else 1500)
+            combos = rng.sample(combos, 100 if tier == 'quick' else 800)
         if ar == 2 and tier == 'quick':
             combos = rng.sample(combos, 40)
         for c in combos:
@@ -676,7 +723,7 @@ def overload_sweep(reg, rng, tier):
         arities = sorted({len(ov[1]) for ov in ovs} | {0, 1, 2})
         for ar in arities:
             combos = list(itertools.product(PROBES, repeat=ar))
-            cap = {0: 1, 1: 17 if tier != 'quick' else 8, 2: 6 if tier == 'quick' else 120, 3: 4 if tier == 'quick' else 150}.get(ar, 4)
+            cap = {0: 1, 1: 17 if tier != 'quick' else 8, 2: 6 if tier == 'quick' else 60, 3: 4 if tier == 'quick' else 60}.get(ar, 4)
             if len(combos) > cap:
                 # always keep the declared signatures (by a probe of that exact type) and sample the rest
                 combos = rng.sample(combos, cap)
@@ -826,8 +873,8 @@ def generate():
 def build_cases(tier, rng):
     e = env()
     g = Gen(rng, e['reg'])
-    n_valid = 350 if tier == 'quick' else 8000
-    n_corrupt = 700 if tier == 'quick' else 20000
+    n_valid = 350 if tier == 'quick' else 3000
+    n_corrupt = 700 if tier == 'quick' else 8000
     cases = []
     valid_texts = []
     for i in range(n_valid):
